@@ -8,6 +8,7 @@ package main
 //                                       packets for unknown channels; one consumer goroutine per channel
 //   mux tx <nchan> <nmsg> <seed>        one sender goroutine per channel, messages of random length: on the
 //                                       peer side every packet carries its channel's id and consecutive numbers
+//   mux closeiso <cap> <extra>          a logical channel is closed while another one holds cap+extra unread packages
 //   mux setup <acktype>                 NewChannel for a logical channel succeeds iff the reply is a header-only
 //                                       PROTACK packet
 // (route, tx and setup are judged by the oracle only; the Lean theorems c12_routing / c12_unknown_channel /
@@ -289,9 +290,59 @@ func muxImpl(line string) string {
 			return fmt.Sprintf("packets for a channel that does not exist are reported as connection errors (%d of %d)", connErrs, unknown)
 		}
 		return "ok routed"
+	case "closeiso":
+		// channel 1 holds a backlog of <cap>+<extra> unread packages in a queue of capacity <cap> (with
+		// extra > 0 the reader is parked on the full queue); channel 2 is closed meanwhile, then channel 1
+		// is consumed: the close completes on its own and channel 1 still gets its packages in order
+		qcap, extra := arg(2), arg(3)
+		info := testInfo()
+		info.ChannelPackageQueueSize = qcap
+		mc := newMemConn()
+		conn, _ := tds.VerifNewConn(context.Background(), mc, info, true)
+		defer conn.VerifCancel()
+		conn.VerifNewChannel(0)
+		a, b := conn.VerifNewChannel(1), conn.VerifNewChannel(2)
+		total := qcap + extra
+		for k := 0; k < total; k++ {
+			body := wDone(0xFD, 1, 0, k)
+			mc.feed(append([]byte{4, 0, 0, byte(len(body) + 8), 0, 1, 0, 0}, body...))
+		}
+		for i := 0; i < 200; i++ {
+			if q, _ := a.VerifQueued(); q >= qcap || q >= total {
+				break
+			}
+			time.Sleep(time.Millisecond)
+		}
+		time.Sleep(3 * time.Millisecond)
+		closed := make(chan struct{})
+		go func() { b.Close(); close(closed) }()
+		select {
+		case <-closed:
+		case <-time.After(1500 * time.Millisecond):
+			// unblock everything before reporting
+			go func() {
+				for {
+					if _, err := a.NextPackage(context.Background(), true); err != nil {
+						return
+					}
+				}
+			}()
+			return "closing a channel is not held up by the unread packages of another channel"
+		}
+		ctx, cancel := context.WithTimeout(context.Background(), 3*time.Second)
+		defer cancel()
+		for k := 0; k < total; k++ {
+			pkg, err := a.NextPackage(ctx, true)
+			d, ok := pkg.(*tds.DonePackage)
+			if err != nil || !ok || int(d.Count) != k {
+				return fmt.Sprintf("each package is delivered to exactly the channel named in its packet header, in order (package %d after another channel was closed: %v %v)", k, pkg, err)
+			}
+		}
+		return "ok closeiso"
 	case "tx":
 		nchan, nmsg, seed := arg(2), arg(3), arg(4)
 		mc := newMemConn()
+		mc.yield = seed%2 == 0
 		conn, _ := tds.VerifNewConn(context.Background(), mc, testInfo(), false)
 		defer conn.VerifCancel()
 		var wg sync.WaitGroup
@@ -379,11 +430,14 @@ func init() {
 			for i := 0; i < n; i++ {
 				emit(Case{Line: fmt.Sprintf("mux route %d %d %d", 1+rng.Intn(8), 1+rng.Intn(12), rng.Intn(1<<30)), Kind: "route"})
 				emit(Case{Line: fmt.Sprintf("mux tx %d %d %d", 1+rng.Intn(8), 1+rng.Intn(6), rng.Intn(1<<30)), Kind: "tx"})
+				if i%4 == 0 {
+					emit(Case{Line: fmt.Sprintf("mux closeiso %d %d", 1+rng.Intn(5), rng.Intn(4)), Kind: "close-isolated"})
+				}
 			}
 		},
-		Impl: muxImpl,
+		Impl:    muxImpl,
 		NoModel: func(line string) bool { return !strings.HasPrefix(line, "mux ids") },
-		Agree: func(m, i string) bool { return m == i },
+		Agree:   func(m, i string) bool { return m == i },
 		Oracle: func(line, out string) string {
 			f := strings.Fields(line)
 			switch f[1] {
@@ -406,13 +460,13 @@ func init() {
 			}
 			return out
 		},
-		FindingKey: func(line, out, clause string) string { return strings.Fields(line)[1] + ":" + clause },
-		Nontrivial: func(line, out string) bool { return true },
-		Rule:       "real Conn over the in-memory transport: the id allocation alone hammered from 2..16 goroutines (60000 ids each case: the counter stays below 65536); 4..48 concurrent NewChannel calls from 1..16 goroutines against a peer acknowledging every setup (ids distinct, all registered); setup with other acknowledgement types; 1..8 channels with 1..12 packages each interleaved at random by the peer incl. packets for unknown channels, one consumer goroutine per channel (exact per-channel sequences, connection error count); 1..8 concurrent senders (per-channel ids, consecutive packet numbers, data intact), incl. channels that send more than 256 packets (packet number wrap). The thorough tier repeats more often; run the harness binary built with -race for the race detector evidence",
-		Serial:     false,
-		Isolate:    true,
-		NoShrink:   true,
-		Timeout:    30 * time.Second,
+		FindingKey:  func(line, out, clause string) string { return strings.Fields(line)[1] + ":" + clause },
+		Nontrivial:  func(line, out string) bool { return true },
+		Rule:        "real Conn over the in-memory transport: the id allocation alone hammered from 2..16 goroutines (60000 ids each case: the counter stays below 65536); 4..48 concurrent NewChannel calls from 1..16 goroutines against a peer acknowledging every setup (ids distinct, all registered); setup with other acknowledgement types; 1..8 channels with 1..12 packages each interleaved at random by the peer incl. packets for unknown channels, one consumer goroutine per channel (exact per-channel sequences, connection error count); 1..8 concurrent senders (per-channel ids, consecutive packet numbers, data intact), incl. channels that send more than 256 packets (packet number wrap). The thorough tier repeats more often; run the harness binary built with -race for the race detector evidence",
+		Serial:      false,
+		Isolate:     true,
+		NoShrink:    true,
+		Timeout:     30 * time.Second,
 		Assumptions: []string{"schedules are whatever the Go scheduler produces on 16 cores (not enumerated); the Lean theorem covers every schedule of the modelled accesses", "data-race freedom itself is not a theorem (partial)"},
 	})
 }
